@@ -478,6 +478,98 @@ Proof.
 Qed.
 
 (* ------------------------------------------------------------------------------------- *)
+(* The second obligation: every update of a shared location is one atomic operation *)
+
+Lemma closedb_complete : forall p rs set, closedb p rs set = true ->
+  forall f, reachable p rs f -> mem f set = true.
+Proof.
+  intros p rs set Hc f Hr. unfold closedb in Hc. apply andb_true_iff in Hc. destruct Hc as [Hroots Hcalls].
+  rewrite forallb_forall in Hroots. rewrite forallb_forall in Hcalls.
+  induction Hr as [f Hf | fn g Hr IH Hfn Hg].
+  - apply Hroots. exact Hf.
+  - pose proof (Hcalls fn Hfn) as H. cbv beta in H. rewrite IH in H.
+    rewrite forallb_forall in H. apply H. exact Hg.
+Qed.
+
+Lemma in_all_sites : forall p fn s, In fn (p_funcs p) -> In s (f_sites fn) -> In (f_name fn, s) (all_sites p).
+Proof.
+  intros p fn s Hfn Hs. unfold all_sites. apply in_flat_map. exists fn. split; [exact Hfn|].
+  apply in_map. exact Hs.
+Qed.
+
+Lemma in_split_pairs : forall p k fl sl fs ss,
+  In fl (p_funcs p) -> In sl (f_sites fl) -> In fs (p_funcs p) -> In ss (f_sites fs) ->
+  sharedb k sl = true -> sharedb k ss = true -> s_aop sl = ALoad -> s_aop ss = AStore -> s_loc sl = s_loc ss ->
+  In ((f_name fl, sl), (f_name fs, ss)) (split_pairs p k).
+Proof.
+  intros p k fl sl fs ss Hfl Hsl Hfs Hss Shl Shs Ol Os Hloc. unfold split_pairs.
+  apply in_flat_map. exists (f_name fl, sl). split.
+  - apply filter_In. split; [apply filter_In; split; [apply in_all_sites; assumption | exact Shl]|].
+    unfold is_load. simpl. rewrite Ol. reflexivity.
+  - apply in_flat_map. exists (f_name fs, ss). split.
+    + apply filter_In. split; [apply filter_In; split; [apply in_all_sites; assumption | exact Shs]|].
+      unfold is_store. simpl. rewrite Os. reflexivity.
+    + simpl. rewrite Hloc, aloc_eqb_refl. left. reflexivity.
+Qed.
+
+(* No call of an entry point of a kind of thread can atomically load a shared location and separately
+   atomically store it. *)
+Theorem updates_atomic_generic : forall p, atomic_update_defects p = [] ->
+  forall k h, In h (roots p k) ->
+  forall fl sl fs ss,
+    In fl (p_funcs p) -> In sl (f_sites fl) -> reachable p [h] (f_name fl) ->
+    In fs (p_funcs p) -> In ss (f_sites fs) -> reachable p [h] (f_name fs) ->
+    sharedb k sl = true -> sharedb k ss = true ->
+    s_aop sl = ALoad -> s_aop ss = AStore -> s_loc sl = s_loc ss -> False.
+Proof.
+  intros p Hd k h Hh fl sl fs ss Hfl Hsl Rl Hfs Hss Rs Shl Shs Ol Os Hloc.
+  assert (Hk : In k [KParse; KCtor]) by (destruct k; simpl; auto).
+  unfold atomic_update_defects in Hd.
+  pose proof (flat_map_nil _ _ _ _ Hd k Hk) as Hdk. cbv beta in Hdk.
+  pose proof (in_split_pairs p k fl sl fs ss Hfl Hsl Hfs Hss Shl Shs Ol Os Hloc) as Hin.
+  destruct (split_pairs p k) as [|pr0 prs] eqn:Esp; [contradiction|].
+  pose proof (flat_map_nil _ _ _ _ Hdk h Hh) as Hdh. cbv beta zeta in Hdh.
+  apply app_eq_nil in Hdh. destruct Hdh as [Hclosed Hpairs].
+  destruct (closedb p [h] (reach_from p [h])) eqn:Ec; [|discriminate Hclosed].
+  pose proof (flat_map_nil _ _ _ _ Hpairs _ Hin) as Hpr. cbv beta in Hpr. simpl in Hpr.
+  rewrite (closedb_complete p [h] _ Ec _ Rl), (closedb_complete p [h] _ Ec _ Rs) in Hpr.
+  discriminate Hpr.
+Qed.
+
+(* What atomic increments guarantee: the values drawn from a counter that is only ever incremented by
+   single atomic operations are pairwise distinct (and above the initial value) in every interleaving —
+   distinct Memoize parser indices = distinct draws of atomic.AddInt32. *)
+Lemma draws_cons : forall l e r,
+  draws l (e :: r) = if is_write_at l e then e_val e :: draws l r else draws l r.
+Proof. intros. unfold draws. simpl. destruct (is_write_at l e); reflexivity. Qed.
+
+Lemma draws_above : forall l tr m, increments l m tr ->
+  NoDup (draws l tr) /\ Forall (fun v => (m l < v)%N) (draws l tr).
+Proof.
+  intros l tr. induction tr as [|e r IH]; intros m Hinc.
+  - split; constructor.
+  - simpl in Hinc. destruct Hinc as [Hhd Htl].
+    destruct (IH _ Htl) as [Hnd Hall]. rewrite draws_cons.
+    unfold step_mem in Hall. unfold is_write_at.
+    destruct (e_write e) eqn:Ew; simpl.
+    + destruct (cloc_eq_dec (e_loc e) l) as [El|El].
+      * assert (Hm : upd m (e_loc e) (e_val e) l = e_val e).
+        { unfold upd. destruct (cloc_eq_dec l (e_loc e)); [reflexivity | congruence]. }
+        rewrite Hm in Hall. pose proof (Hhd eq_refl El) as Hv. split.
+        -- constructor; [|exact Hnd]. intros Hin. rewrite Forall_forall in Hall.
+           pose proof (Hall _ Hin) as Hlt. lia.
+        -- constructor; [lia|].
+           rewrite Forall_forall in *. intros v Hin. pose proof (Hall v Hin) as Hlt. lia.
+      * assert (Hm : upd m (e_loc e) (e_val e) l = m l).
+        { unfold upd. destruct (cloc_eq_dec l (e_loc e)); [congruence | reflexivity]. }
+        rewrite Hm in Hall. split; assumption.
+    + split; assumption.
+Qed.
+
+Theorem draws_distinct : forall l m tr, increments l m tr -> NoDup (draws l tr).
+Proof. intros l m tr H. exact (proj1 (draws_above l tr m H)). Qed.
+
+(* ------------------------------------------------------------------------------------- *)
 (* Non-vacuity: a program with a package-level counter incremented by the parse code has a conflict,
    and an permitted trace of two parse threads with a data race exists; the same program with the counter
    in the (thread-local) context has none, and its two-thread traces are permitted. *)
@@ -487,17 +579,17 @@ Definition ex_bad : prog := {|
   p_holders := [("parsley.Context", "callCount", ["int"])];
   p_funcs := [ mkFunc "parsley.Parse" [] ["parsley.Context.RegisterCall"];
                mkFunc "parsley.Context.RegisterCall"
-                 [mkSite (LGlobal "parsley.calls") true false BGlobal false "x.go:1:1 inc/dec"] [] ];
+                 [mkSite (LGlobal "parsley.calls") true false ANone BGlobal false "x.go:1:1 inc/dec"] [] ];
   p_parse_roots := ["parsley.Parse"];
   p_ctor_roots := [] |}.
 
 Definition ex_ok : prog := {|
   p_globals := [("parsley.calls", ["int"])];
   p_holders := [("parsley.Context", "callCount", ["int"])];
-  p_funcs := [ mkFunc "parsley.Parse" [mkSite (LGlobal "parsley.calls") false false BGlobal false "x.go:2:1 read"]
+  p_funcs := [ mkFunc "parsley.Parse" [mkSite (LGlobal "parsley.calls") false false ANone BGlobal false "x.go:2:1 read"]
                  ["parsley.Context.RegisterCall"];
                mkFunc "parsley.Context.RegisterCall"
-                 [mkSite (LField "parsley.Context" "callCount") true false BRecv false "x.go:1:1 inc/dec"] [] ];
+                 [mkSite (LField "parsley.Context" "callCount") true false ANone BRecv false "x.go:1:1 inc/dec"] [] ];
   p_parse_roots := ["parsley.Parse"];
   p_ctor_roots := [] |}.
 
@@ -537,11 +629,11 @@ Proof.
     { apply ex_reach_register; simpl; auto. }
     constructor; [|constructor; [|constructor]].
     + perm_tac (mkFunc "parsley.Context.RegisterCall"
-             [mkSite (LGlobal "parsley.calls") true false BGlobal false "x.go:1:1 inc/dec"] [])
-          (mkSite (LGlobal "parsley.calls") true false BGlobal false "x.go:1:1 inc/dec") R.
+             [mkSite (LGlobal "parsley.calls") true false ANone BGlobal false "x.go:1:1 inc/dec"] [])
+          (mkSite (LGlobal "parsley.calls") true false ANone BGlobal false "x.go:1:1 inc/dec") R.
     + perm_tac (mkFunc "parsley.Context.RegisterCall"
-             [mkSite (LGlobal "parsley.calls") true false BGlobal false "x.go:1:1 inc/dec"] [])
-          (mkSite (LGlobal "parsley.calls") true false BGlobal false "x.go:1:1 inc/dec") R.
+             [mkSite (LGlobal "parsley.calls") true false ANone BGlobal false "x.go:1:1 inc/dec"] [])
+          (mkSite (LGlobal "parsley.calls") true false ANone BGlobal false "x.go:1:1 inc/dec") R.
   - exists 0%nat, 1%nat, (mkEvent 0 (CShared (LGlobal "parsley.calls")) true false 1),
            (mkEvent 1 (CShared (LGlobal "parsley.calls")) true false 1).
     split; [lia|]. split; [reflexivity|]. split; [reflexivity|].
@@ -558,17 +650,70 @@ Example ex_ok_permitted : permitted ex_ok (fun _ => KParse) ex_ok_trace /\ ~ has
 Proof.
   assert (A : permitted ex_ok (fun _ => KParse) ex_ok_trace).
   { unfold permitted, ex_ok_trace.
-    pose (fparse := mkFunc "parsley.Parse" [mkSite (LGlobal "parsley.calls") false false BGlobal false "x.go:2:1 read"]
+    pose (fparse := mkFunc "parsley.Parse" [mkSite (LGlobal "parsley.calls") false false ANone BGlobal false "x.go:2:1 read"]
                       ["parsley.Context.RegisterCall"]).
     pose (freg := mkFunc "parsley.Context.RegisterCall"
-                    [mkSite (LField "parsley.Context" "callCount") true false BRecv false "x.go:1:1 inc/dec"] []).
+                    [mkSite (LField "parsley.Context" "callCount") true false ANone BRecv false "x.go:1:1 inc/dec"] []).
     assert (R0 : reachable ex_ok (roots ex_ok KParse) (f_name fparse)) by (apply reach_root; simpl; auto).
     assert (R : reachable ex_ok (roots ex_ok KParse) (f_name freg)).
     { apply (reach_call ex_ok (roots ex_ok KParse) fparse); [exact R0 | simpl; auto | simpl; auto]. }
     constructor; [|constructor; [|constructor; [|constructor; [|constructor]]]].
-    - perm_tac freg (mkSite (LField "parsley.Context" "callCount") true false BRecv false "x.go:1:1 inc/dec") R.
-    - perm_tac freg (mkSite (LField "parsley.Context" "callCount") true false BRecv false "x.go:1:1 inc/dec") R.
-    - perm_tac fparse (mkSite (LGlobal "parsley.calls") false false BGlobal false "x.go:2:1 read") R0.
-    - perm_tac freg (mkSite (LField "parsley.Context" "callCount") true false BRecv false "x.go:1:1 inc/dec") R. }
+    - perm_tac freg (mkSite (LField "parsley.Context" "callCount") true false ANone BRecv false "x.go:1:1 inc/dec") R.
+    - perm_tac freg (mkSite (LField "parsley.Context" "callCount") true false ANone BRecv false "x.go:1:1 inc/dec") R.
+    - perm_tac fparse (mkSite (LGlobal "parsley.calls") false false ANone BGlobal false "x.go:2:1 read") R0.
+    - perm_tac freg (mkSite (LField "parsley.Context" "callCount") true false ANone BRecv false "x.go:1:1 inc/dec") R. }
   split; [exact A|]. exact (drf_generic ex_ok ex_ok_no_conflicts _ _ A).
+Qed.
+
+(* Non-vacuity of the second obligation: Load + Store of the parser-index counter (the shape of the seeded
+   change C14_m2) is race free — every access is atomic — but is reported by [atomic_update_defects]; and the
+   lost update is real: a sequentially consistent, race-free trace of two threads draws the index 1 twice.
+   The single atomic.AddInt32 has no defect. *)
+Definition ex_counter : aloc := LGlobal "combinator.nextParserIndex".
+
+Definition ex_split : prog := {|
+  p_globals := [("combinator.nextParserIndex", ["int32"])];
+  p_holders := [];
+  p_funcs := [ mkFunc "combinator.Memoize" [] ["combinator.newParserIndex"];
+               mkFunc "combinator.newParserIndex"
+                 [mkSite ex_counter false true ALoad BGlobal false "memoize.go:26 atomic.LoadInt32";
+                  mkSite ex_counter true true AStore BGlobal false "memoize.go:30 atomic.StoreInt32"] [] ];
+  p_parse_roots := ["combinator.Memoize"];
+  p_ctor_roots := ["combinator.Memoize"; "combinator.newParserIndex"] |}.
+
+Definition ex_rmw : prog := {|
+  p_globals := [("combinator.nextParserIndex", ["int32"])];
+  p_holders := [];
+  p_funcs := [ mkFunc "combinator.Memoize"
+                 [mkSite ex_counter true true ARMW BGlobal false "memoize.go:22 atomic.AddInt32"] [] ];
+  p_parse_roots := ["combinator.Memoize"];
+  p_ctor_roots := ["combinator.Memoize"] |}.
+
+Example ex_split_race_free_but_not_atomic : conflicts ex_split = [] /\ atomic_update_defects ex_split <> [].
+Proof. split; vm_compute; [reflexivity | discriminate]. Qed.
+
+Example ex_rmw_ok : conflicts ex_rmw = [] /\ atomic_update_defects ex_rmw = [].
+Proof. split; vm_compute; reflexivity. Qed.
+
+Definition ex_lost_update : list event :=
+  [ mkEvent 0 (CShared ex_counter) false true 0;      (* thread 0: atomic.LoadInt32 = 0 *)
+    mkEvent 1 (CShared ex_counter) false true 0;      (* thread 1: atomic.LoadInt32 = 0 *)
+    mkEvent 0 (CShared ex_counter) true true 1;       (* thread 0: atomic.StoreInt32 1 *)
+    mkEvent 1 (CShared ex_counter) true true 1 ].     (* thread 1: atomic.StoreInt32 1 — the same index *)
+
+Example ex_lost_update_is_silent :
+  consistent (fun _ => 0%N) ex_lost_update /\ ~ has_race ex_lost_update /\
+  draws (CShared ex_counter) ex_lost_update = [1%N; 1%N] /\
+  ~ increments (CShared ex_counter) (fun _ => 0%N) ex_lost_update.
+Proof.
+  split; [|split; [|split]].
+  - simpl. repeat split; intros; try discriminate; reflexivity.
+  - intros [i [j [e1 [e2 [_ [H1 [H2 [_ [_ [_ Hat]]]]]]]]]].
+    assert (A : forall n e, nth_error ex_lost_update n = Some e -> e_atomic e = true).
+    { intros n e H. apply nth_error_In in H. simpl in H.
+      destruct H as [H|[H|[H|[H|[]]]]]; subst e; reflexivity. }
+    rewrite (A _ _ H1), (A _ _ H2) in Hat. destruct Hat; discriminate.
+  - vm_compute. reflexivity.
+  - simpl. intros [_ [_ [_ [H _]]]].
+    specialize (H eq_refl eq_refl). vm_compute in H. discriminate H.
 Qed.
